@@ -43,6 +43,7 @@ Tol(fam) == CASE fam \in {"Normal", "Cauchy", "Gumbel", "Frechet", "SkewNormal",
 WireTol(fam) == CASE fam \in {"ChiSquared", "Gamma(1)", "Normal(0,1)"} -> 1
                   [] fam = "Exp" -> 2
                   [] fam \in {"StudentT", "Pert", "SkewNormal"} -> 4
+                  [] fam = "LogNormal(from_mean_cv)" -> 32
                   [] OTHER -> 8
 
 \* ZS: mean = m/16, std_dev = s/16, z = k/16  =>  256 * (mean + std_dev * z) = 16 m + s k   (exact in f32 and f64)
